@@ -70,6 +70,7 @@ func c09RacePass(tier string) {
 			scope := env.NewSubordinateEnv(base)
 			scope.Set(types.Symbol{Val: "a"}, &concurrent.Atom{Val: 1})
 			scope.Set(types.Symbol{Val: "b"}, &concurrent.Atom{Val: 1})
+			scope.Set(types.Symbol{Val: "k"}, &concurrent.Atom{Val: types.List{Val: []types.MalType{0}}})
 			var bodies []func()
 			for ti, o := range plan {
 				ast := lx.MustRead(atomOps[o].text(10 * (ti + 1)))
